@@ -164,7 +164,8 @@ class Ctx:
         if last is None:
             last = {"_crashed": True}       # only reachable with check=False
         last["_wall"] = time.time() - t
-        last["_stderr"] = p.stderr[-20000:]
+        # head and tail: a runtime abort prints its reason first and then every goroutine's stack
+        last["_stderr"] = p.stderr if len(p.stderr) <= 30000 else p.stderr[:8000] + "\n...\n" + p.stderr[-20000:]
         last["_rc"] = p.returncode
         return last
 
